@@ -382,6 +382,10 @@ func (h *H) SaveReplay(test string, c any, why string) string {
 	return p
 }
 
+// caseLimit: no generated case of any property takes longer than a few hundred milliseconds (the longest
+// sleep a few milliseconds at a time); two minutes means "never".
+const caseLimit = 120 * time.Second
+
 // Prop is a property over a case: it returns nil if the property holds.
 type Prop[C any] func(c C) error
 
@@ -407,7 +411,12 @@ func Check[C any](t *testing.T, h *H, test string, gen func(*rapid.T) C, prop Pr
 	rapid.Check(t, func(rt *rapid.T) {
 		c := gen(rt)
 		h.Eval()
-		if err := guard(prop, c); err != nil {
+		// every case runs under the hang watchdog and is noted in the crash file: code that never returns or
+		// takes the process down is reported with the case, not as a stage that timed out
+		h.BeginLimit(test, c, caseLimit)
+		err := guard(prop, c)
+		h.End()
+		if err != nil {
 			p := h.SaveReplay(test, c, err.Error())
 			rt.Fatalf("VERIF-VIOLATION property=%s case=%s\n%v", h.ID, p, err)
 		}
@@ -441,7 +450,10 @@ func Regress[C any](t *testing.T, h *H, test string, prop Prop[C]) {
 		}
 		h.Eval()
 		h.Class("regress-case")
-		if err := guard(prop, c); err != nil {
+		h.BeginLimit(test, c, caseLimit)
+		err = guard(prop, c)
+		h.End()
+		if err != nil {
 			h.mu.Lock()
 			h.violations++
 			h.mu.Unlock()
